@@ -762,6 +762,10 @@ def run(chk: core.Check):
         "correspondence harness harness/props/c06.py (encoders, Coq output parser, canonicalisers, generators, independent Python decoders)",
         "configuration-history stage: recording WSGI / ASGI applications and the loopback server as observers of the path on the wire, the oracle's own bookkeeping "
         "of the configuration in force (last value written per field) and its plain concatenation <base path> + <filled template>",
+        "exchange-history stage: recording WSGI / ASGI applications and the loopback server, all answering what the history says (Set-Cookie with Path=/, "
+        "302 + Location, Connection: close) and recording the complete header set of every request; the standard client headers of a transport = what an "
+        "empty case (a schema load) delivers on applications and clients that have seen nothing, measured per run; the oracle's own merge of case / call headers "
+        "and cookies",
         "requests/urllib3 (query-string encoding of dict/list params, cookie header, header transmission), http.server (loopback) and Hypothesis "
         "(map/filter composition) as exercised by the oracle stage: tested per run, not proved",
     ]
@@ -776,6 +780,10 @@ def run(chk: core.Check):
         "builds the texts from the two parts); werkzeug's test client, starlette's TestClient and requests deliver the path they are given (dot segments "
         "that urljoin leaves in the URL are removed by requests/urllib3: such observations are skipped and counted); path values in histories are free of "
         "'?', '#', '%'; server URL variables are not used",
+        "exchange histories: cases without a body (GET); header names outside Host / Content-Type / Content-Length and without underscores; cookie names and values "
+        "of letters, digits, '-', '.' (no quoting by http.cookiejar / werkzeug); every Set-Cookie has Path=/ and no Domain / Expires / Max-Age (the cookie "
+        "jars of werkzeug.test.Client and requests.Session are modelled for that shape only: xe_std = requests.utils.default_headers(), one jar per "
+        "client object); the request a client sends by itself when it follows a redirect is counted, not compared",
     ]
     chk.rule = (
         "one PRNG (VERIF_SEED). serializers: 1-3 OpenAPI3/Swagger2 parameter definitions (every location x style x explode in {absent,true,false} x "
@@ -787,7 +795,11 @@ def run(chk: core.Check):
         "distinct by canonical JSON. histories: ONE schema object (Swagger 2 basePath / OpenAPI 3 servers), 5-13 events: configure(base_url) / base_url assignment "
         "(none, empty text, loopback / localhost / relative prefix x base paths none, '/', '/api', '/api/v1/', unicode, dotted version; 15% odd: double slashes, dot "
         "segments), configure(location), servers/basePath edits, configure(app) switching requests / WSGI / ASGI, sends with a fresh (get_all_operations) or cached "
-        "(schema[path][method]) operation over 6 templates, full_path and base_path reads; non-trivial = a send after a re-configuration"
+        "(schema[path][method]) operation over 6 templates, full_path and base_path reads; non-trivial = a send after a re-configuration. exchange histories: "
+        "2-7 exchanges on one application per transport (70% on one main transport): schema loads (from_url / from_wsgi / from_asgi) and case.call() of cases with "
+        "0-2 headers (names differing by case, overriding Accept / User-Agent / the test-case id; 8% a Cookie header), 0-2 cookies, headers= / cookies= of the call, "
+        "35% through one of two session objects of the user; every answer sets 0-2 cookies over 5 names shared with the cases, 10% redirects, 10% Connection: close; "
+        "non-trivial = an exchange after an answer that set a cookie on the same transport"
     )
     chk.proofs(["Common", "C06"])
     rng = chk.rng
@@ -812,6 +824,7 @@ def run(chk: core.Check):
         )
         chk.stages["oracle_coverage_phase"] = oracle_coverage_phase(chk, rng, 12 if quick else 120)
         corr_histories(chk, rng, rec, (120 if quick else 1500) * (4 if chk.broken else 1), [c["history"] for c in corpus if c.get("stage") == "history"])
+        corr_exchanges(chk, rng, rec, (150 if quick else 2000) * (4 if chk.broken else 1), [c["exchanges"] for c in corpus if c.get("stage") == "exchanges"])
         for f in chk.findings:
             chk.known(f, witness_fails(f["witness"], rec))
     finally:
@@ -1911,6 +1924,401 @@ def corr_histories(chk, rng, rec, n, corpus=()):
 
 
 # ----------------------------------------------------------------------------------------
+# exchanges: what a transport carries from one exchange to the next (Model_C06 section 14)
+# ----------------------------------------------------------------------------------------
+X_PATHS = ["/a", "/b/c"]
+X_HEADER_NAMES = ["X-A", "x-a", "X-Token", "Accept", "User-Agent", "X-Schemathesis-TestCaseId", "Authorization", "Accept-Language"]
+X_HEADER_VALUES = ["1", "v", "a b", "text/plain", "Bearer t", "x;y=z", ""]
+X_COOKIE_NAMES = ["sess", "token", "a", "b", "csrf"]
+X_COOKIE_VALUES = ["S1", "abc", "1", "x-y", "v.1", "0"]
+X_ID = "ID"  # stands for case.id in the observations (the real id is random)
+
+
+def exchange_raw_schema():
+    paths = {p: {"get": {"parameters": [{"name": "token", "in": "cookie", "schema": {"type": "string"}}, {"name": "X-A", "in": "header", "schema": {"type": "string"}}],
+                         "responses": {"200": {"description": "ok"}}}} for p in X_PATHS}
+    return {"openapi": "3.0.2", "info": {"title": "t", "version": "1"}, "paths": paths}
+
+
+def _canon_received(pairs):
+    return sorted([k.lower(), v] for k, v in pairs)
+
+
+class ExchangeWorld:
+    """One application per transport (a recording WSGI app, a recording ASGI app, the loopback server), all of which answer what
+    `self.answer` says (Set-Cookie, a redirect, Connection: close) to the first request of an exchange and record the complete header
+    set of every request they receive.  Session objects of the user (werkzeug.Client / requests.Session) live as long as the world."""
+
+    def __init__(self, rec):
+        import schemathesis
+
+        self.rec = rec
+        self.received = []
+        self.answer = None
+        self.raw = exchange_raw_schema()
+        self.sessions = {}
+        self.schemas = {}
+        world = self
+
+        def next_answer(path):
+            answer, world.answer = world.answer, None
+            body = json.dumps(world.raw).encode() if path == "/openapi.json" else b"{}"
+            headers = [("Content-Type", "application/json")]
+            status = 200
+            if answer is not None:
+                headers += [("Set-Cookie", f"{k}={v}; Path=/") for k, v in answer["set"]]
+                if answer["redirect"]:
+                    status = 302
+                    headers.append(("Location", "/after"))
+                if answer["close"]:
+                    headers.append(("Connection", "close"))
+            return status, headers, body
+
+        def wsgi_app(environ, start_response):
+            pairs = [(k[5:].replace("_", "-"), v) for k, v in environ.items() if k.startswith("HTTP_")]
+            pairs += [(k.replace("_", "-"), v) for k, v in environ.items() if k in ("CONTENT_TYPE", "CONTENT_LENGTH") and v]
+            world.received.append(_canon_received(pairs))
+            status, headers, body = next_answer(environ.get("PATH_INFO"))
+            start_response(f"{status} X", headers)
+            return [body]
+
+        async def asgi_app(scope, receive, send):
+            if scope["type"] == "lifespan":
+                while True:
+                    message = await receive()
+                    if message["type"] == "lifespan.startup":
+                        await send({"type": "lifespan.startup.complete"})
+                    elif message["type"] == "lifespan.shutdown":
+                        await send({"type": "lifespan.shutdown.complete"})
+                        return
+            world.received.append(_canon_received((k.decode("latin-1"), v.decode("latin-1")) for k, v in scope["headers"]))
+            status, headers, body = next_answer(scope["path"])
+            await send({"type": "http.response.start", "status": status, "headers": [(k.lower().encode(), v.encode()) for k, v in headers]})
+            await send({"type": "http.response.body", "body": body})
+
+        def responder(item):
+            world.received.append(_canon_received(item["headers"]))
+            return next_answer(item["target"].partition("?")[0])
+
+        self.apps = {"requests": None, "wsgi": wsgi_app, "asgi": asgi_app}
+        self.responder = responder
+        self._from_dict = schemathesis.openapi.from_dict
+
+    def __enter__(self):
+        self.rec.responder = self.responder
+        return self
+
+    def __exit__(self, *exc):
+        self.rec.responder = None
+        for (t, _), s in self.sessions.items():
+            if t != "wsgi":
+                s.close()
+        self.rec.take()
+
+    def schema(self, t):
+        if t not in self.schemas:
+            schema = self._from_dict(copy.deepcopy(self.raw))
+            self.schemas[t] = schema.configure(base_url=self.rec.url) if t == "requests" else schema.configure(app=self.apps[t])
+        return self.schemas[t]
+
+    def load(self, t):
+        import schemathesis
+
+        if t == "requests":
+            self.schemas[t] = schemathesis.openapi.from_url(self.rec.url + "/openapi.json")
+        elif t == "wsgi":
+            self.schemas[t] = schemathesis.openapi.from_wsgi("/openapi.json", self.apps[t])
+        else:
+            self.schemas[t] = schemathesis.openapi.from_asgi("/openapi.json", self.apps[t])
+
+    def session(self, t, i):
+        if i is None:
+            return None
+        if (t, i) not in self.sessions:
+            import requests
+            import werkzeug
+
+            self.sessions[(t, i)] = werkzeug.Client(self.apps[t]) if t == "wsgi" else requests.Session()
+        return self.sessions[(t, i)]
+
+    def env(self):
+        """The surroundings the model is told about: default headers of a requests session, the hosts."""
+        import requests.utils
+        from schemathesis.core.transport import USER_AGENT
+
+        netloc = self.rec.url.split("://", 1)[1]
+        return {"std": list(requests.utils.default_headers().items()), "ua": USER_AGENT,
+                "hosts": {("requests", False): netloc, ("requests", True): netloc, ("wsgi", False): "localhost", ("wsgi", True): "localhost",
+                          ("asgi", False): "localhost", ("asgi", True): "testserver"}}
+
+
+def run_exchanges_real(hist, world):
+    """One observation per event: ['received', <complete canonical header set of the first request of the exchange>, <later requests>]
+    or ['raises', <exception type>]."""
+    from requests.structures import CaseInsensitiveDict
+
+    out = []
+    for ev in hist:
+        t, answer = ev["transport"], ev["answer"]
+        world.answer = {"set": list(answer["set"]), "redirect": answer["redirect"], "close": answer["close"]}
+        del world.received[:]
+        case_id = None
+        try:
+            if ev["kind"] == "load":
+                world.load(t)
+            else:
+                c = ev["case"]
+                op = world.schema(t)[ev["path"]]["GET"]
+                case = op.Case(headers=None if c["headers"] is None else CaseInsensitiveDict(c["headers"]),
+                               cookies=None if c["cookies"] is None else dict(c["cookies"]))
+                case_id = case.id
+                kwargs = {}
+                if ev["session"] is not None:
+                    kwargs["session"] = world.session(t, ev["session"])
+                case.call(headers=None if c["call_headers"] is None else dict(c["call_headers"]),
+                          cookies=None if c["call_cookies"] is None else dict(c["call_cookies"]), **kwargs)
+        except Exception as exc:  # noqa: BLE001
+            out.append(["raises", type(exc).__name__])
+            continue
+        finally:
+            world.answer = None
+        if not world.received:
+            out.append(["raises", "nothing-received"])
+            continue
+        first = [[k, X_ID if k == "x-schemathesis-testcaseid" and v == case_id else v] for k, v in world.received[0]]
+        out.append(["received", first, len(world.received) - 1])
+    return out
+
+
+def c_pairs(pairs, ty="(str * str)") -> str:
+    return clist([ctuple(cstr(k), cstr(v)) for k, v in pairs], ty)
+
+
+def c_xcase(c) -> str:
+    def opt(d):
+        return copt(None if d is None else c_pairs(d), "(list (str * str))")
+
+    return "{| xc_headers := %s; xc_cookies := %s; xc_call_headers := %s; xc_call_cookies := %s; xc_id := %s |}" % (
+        opt(c["headers"]), opt(c["cookies"]), opt(c["call_headers"]), opt(c["call_cookies"]), cstr(X_ID))
+
+
+def c_xresp(a) -> str:
+    return "{| xr_set := %s; xr_redirect := %s; xr_close := %s |}" % (c_pairs(a["set"]), cbool(a["redirect"]), cbool(a["close"]))
+
+
+def c_xevent(ev) -> str:
+    t = H_TRANSPORTS[ev["transport"]]
+    if ev["kind"] == "load":
+        return "(XLoad %s %s)" % (t, c_xresp(ev["answer"]))
+    return "(XSend %s %s %s %s)" % (t, copt(None if ev["session"] is None else core.cN(ev["session"]), "N"), c_xcase(ev["case"]), c_xresp(ev["answer"]))
+
+
+def c_xenv(env) -> str:
+    h = env["hosts"]
+    host = "(fun t load => match t with TRequests => %s | TWsgi => %s | TAsgi => if load then %s else %s end)" % (
+        cstr(h[("requests", False)]), cstr(h[("wsgi", False)]), cstr(h[("asgi", True)]), cstr(h[("asgi", False)]))
+    return "{| xe_std := %s; xe_ua := %s; xe_host := %s |}" % (c_pairs(env["std"]), cstr(env["ua"]), host)
+
+
+def c_xrun(hist, env, rule="fresh_clients") -> str:
+    return "xrun %s %s (@nil (slot * cookies)) %s" % (rule, c_xenv(env), clist([c_xevent(e) for e in hist], "xevent"))
+
+
+def p_received(t):
+    return sorted([pstr(k).lower(), pstr(v)] for k, v in t)
+
+
+def _given_headers(c):
+    """lower-cased name -> value: the headers of the case overridden by the headers of the call."""
+    out = {}
+    for d in (c["headers"], c["call_headers"]):
+        for k, v in (d or []):
+            out[k.lower()] = v
+    return out
+
+
+def _own_cookies(c):
+    out = {}
+    for d in (c["cookies"], c["call_cookies"]):
+        for k, v in (d or []):
+            out[k] = v
+    return list(out.items())
+
+
+def _parse_cookie_header(text):
+    return [tuple(part.split("=", 1)) for part in text.split("; ")] if text else []
+
+
+def exchange_oracle(hist, real, baseline):
+    """Independent of the model.  `baseline[(transport, kind)]` = the header set of the same kind of exchange (an empty case / a load) on
+    applications and clients that have seen NOTHING before: the standard client headers.  Whatever happened before and whatever the
+    applications answered, exchange k must deliver: those standard headers, overridden / extended by the headers of case k and of the
+    call, the test-case id, and a Cookie header made of exactly the cookies of case k (and of the call).  A session object handed in by
+    the user may add cookies that an earlier answer THROUGH THAT SAME SESSION OBJECT set, nothing else.
+    Yields (step, region_or_None, what, detail)."""
+    set_through = {}  # (transport, session id) -> cookie pairs answered so far through that session object
+    for i, (ev, ob) in enumerate(zip(hist, real)):
+        t = ev["transport"]
+        key = (t, ev.get("session")) if ev["kind"] == "send" and ev.get("session") is not None and t != "asgi" else None
+        earlier = list(set_through.get(key, [])) if key else []
+        if key:
+            set_through.setdefault(key, []).extend(tuple(p) for p in ev["answer"]["set"])
+        if ob[0] != "received":
+            continue
+        got = {k: v for k, v in ob[1]}
+        expected = dict(baseline[(t, ev["kind"])])
+        own = []
+        region = None
+        if ev["kind"] == "send":
+            given = _given_headers(ev["case"])
+            expected.update(given)
+            expected.setdefault("x-schemathesis-testcaseid", X_ID)
+            own = _own_cookies(ev["case"])
+            if "cookie" in given:
+                region = "cookie_header_in_case"  # the case says Cookie twice (a header and cookies): see finding F13
+        got_cookies = _parse_cookie_header(got.pop("cookie", ""))
+        exp_cookie_header = expected.pop("cookie", None)
+        detail = {"transport": t, "session": ev.get("session"), "case": ev.get("case"), "received": ob[1]}
+        if got != expected:
+            extra = {k: v for k, v in got.items() if expected.get(k) != v}
+            missing = {k: v for k, v in expected.items() if got.get(k) != v}
+            yield i, region, f"the headers received through the {t} transport are not the standard client headers plus the headers of the case", {**detail, "unexpected": extra, "missing_or_different": missing}
+            continue
+        if region is not None:
+            if got_cookies != _parse_cookie_header(exp_cookie_header) or own:
+                yield i, region, f"the case has a Cookie header of its own: {t} transport", {**detail, "cookies_of_the_case": own}
+            continue
+        foreign = [p for p in got_cookies if p not in own and p not in earlier]
+        if foreign:
+            yield i, None, f"the application received cookies through the {t} transport that the case does not have", {**detail, "cookies_of_the_case": own, "foreign": foreign}
+        elif key is None and got_cookies != own:
+            yield i, None, f"the cookies received through the {t} transport are not the cookies of the case", {**detail, "cookies_of_the_case": own, "received_cookies": got_cookies}
+        elif key is not None and any(p not in got_cookies for p in own):
+            yield i, None, f"a cookie of the case did not arrive ({t} transport, session of the user)", {**detail, "cookies_of_the_case": own, "received_cookies": got_cookies}
+
+
+def rand_answer(rng, load=False):
+    n = rng.choice([0, 0, 1, 1, 2])
+    return {"set": [(rng.choice(X_COOKIE_NAMES), rng.choice(X_COOKIE_VALUES)) for _ in range(n)],
+            "redirect": (not load) and rng.random() < 0.1, "close": rng.random() < 0.1}
+
+
+def _rand_dict(rng, names, values, none, sizes):
+    if rng.random() < none:
+        return None
+    out = {}
+    for _ in range(rng.choice(sizes)):
+        out[rng.choice(names)] = rng.choice(values)
+    return list(out.items())
+
+
+def _ci_unique(pairs):
+    if pairs is None:
+        return None
+    out = {}
+    for k, v in pairs:
+        out[k.lower()] = (k, v)
+    return list(out.values())
+
+
+def rand_xcase(rng):
+    names = X_HEADER_NAMES + (["Cookie", "cookie"] if rng.random() < 0.08 else [])
+    return {"headers": _ci_unique(_rand_dict(rng, names, X_HEADER_VALUES + ["h=1"] * ("Cookie" in names), 0.4, [0, 1, 1, 2])),
+            "cookies": _rand_dict(rng, X_COOKIE_NAMES, X_COOKIE_VALUES, 0.4, [0, 1, 1, 2]),
+            "call_headers": _rand_dict(rng, names, X_HEADER_VALUES, 0.75, [1, 2]),
+            "call_cookies": _rand_dict(rng, X_COOKIE_NAMES, X_COOKIE_VALUES, 0.8, [1, 2])}
+
+
+def rand_exchanges(rng):
+    main = rng.choice(list(H_TRANSPORTS))
+    hist = []
+    for _ in range(rng.choice([2, 3, 4, 5, 6, 7])):
+        t = main if rng.random() < 0.7 else rng.choice(list(H_TRANSPORTS))
+        if rng.random() < 0.15:
+            hist.append({"kind": "load", "transport": t, "answer": rand_answer(rng, load=True)})
+        else:
+            hist.append({"kind": "send", "transport": t, "path": rng.choice(X_PATHS), "session": None if rng.random() < 0.65 else rng.choice([0, 1]),
+                         "case": rand_xcase(rng), "answer": rand_answer(rng)})
+    return hist
+
+
+def load_exchanges(hist):
+    def pairs(d):
+        return None if d is None else [tuple(p) for p in d]
+
+    out = []
+    for ev in hist:
+        ev = copy.deepcopy(ev)
+        ev["answer"]["set"] = pairs(ev["answer"]["set"])
+        if ev["kind"] == "send":
+            ev["case"] = {k: pairs(v) for k, v in ev["case"].items()}
+        out.append(ev)
+    return out
+
+
+def exchange_baseline(rec):
+    """The standard client headers of each transport: what an empty case (a load) delivers on applications that have seen nothing."""
+    base = {}
+    empty = {"headers": None, "cookies": None, "call_headers": None, "call_cookies": None}
+    quiet = {"set": [], "redirect": False, "close": False}
+    for t in H_TRANSPORTS:
+        for kind in ("send", "load"):
+            with ExchangeWorld(rec) as world:
+                ev = {"kind": kind, "transport": t, "path": X_PATHS[0], "session": None, "case": empty, "answer": quiet}
+                (ob,) = run_exchanges_real([ev], world)
+            assert ob[0] == "received", ob
+            base[(t, kind)] = {k: v for k, v in ob[1] if k != "x-schemathesis-testcaseid"}
+    return base
+
+
+def corr_exchanges(chk, rng, rec, n, corpus=()):
+    """Model (xrun fresh_clients, evaluated in Coq) vs real exchange histories, event by event, on the complete received header set; then the oracle."""
+    hists = [load_exchanges(h) for h in corpus] + [rand_exchanges(rng) for _ in range(n)]
+    baseline = exchange_baseline(rec)
+    with ExchangeWorld(rec) as world:
+        env = world.env()
+    models = core.coq_eval(IMPORTS, [c_xrun(h, env) for h in hists], shard=max(10, len(hists) // 8 + 1))
+    stats = {"histories": len(hists), "exchanges": {"requests": 0, "wsgi": 0, "asgi": 0}, "loads": 0, "after_a_set_cookie_on_the_same_transport": 0,
+             "through_a_session_of_the_user": 0, "redirect_follow_ups": 0, "raises": 0, "oracle_failures_in_listed_regions": 0}
+    for hist, m in zip(hists, models):
+        with ExchangeWorld(rec) as world:
+            real = run_exchanges_real(hist, world)
+        cookies_set = set()
+        nontrivial = False
+        for ev, ob in zip(hist, real):
+            if ob[0] != "received":
+                stats["raises"] += 1
+                continue
+            stats["exchanges"][ev["transport"]] += 1
+            stats["loads"] += ev["kind"] == "load"
+            stats["redirect_follow_ups"] += ob[2]
+            stats["through_a_session_of_the_user"] += ev.get("session") is not None
+            if ev["transport"] in cookies_set:
+                stats["after_a_set_cookie_on_the_same_transport"] += 1
+                nontrivial = True
+            if ev["answer"]["set"]:
+                cookies_set.add(ev["transport"])
+        chk.seen({"exchanges": hist}, nontrivial)
+        for i, (ob, mo) in enumerate(zip(real, m)):
+            if ob[0] != "received":
+                chk.disagree("exchange history vs Model_C06.xrun: the exchange did not reach the application", {"stage": "exchanges", "history": hist[: i + 1], "step": i}, ob, p_received(mo))
+                break
+            if ob[1] != p_received(mo):
+                chk.disagree("exchange history (complete received header set) vs Model_C06.xrun fresh_clients", {"stage": "exchanges", "history": hist[: i + 1], "step": i}, ob[1], p_received(mo))
+                break
+        for i, region, what, detail in exchange_oracle(hist, real, baseline):
+            if region is not None:
+                stats["oracle_failures_in_listed_regions"] += 1
+            chk.fail(what + f" (exchange {i} of the history)", {"stage": "exchanges", "history": hist[: i + 1], "step": i}, detail, region=region)
+            if region is None:
+                break
+    if hists:
+        with ExchangeWorld(rec) as world:
+            chk.sample({"exchanges": hists[-1], "received": run_exchanges_real(hists[-1], world)})
+    chk.stages["correspondence_and_oracle_exchange_histories"] = stats
+
+
+# ----------------------------------------------------------------------------------------
 # listed findings: canonical witnesses replayed on the implementation
 # ----------------------------------------------------------------------------------------
 def witness_fails(w, rec=None) -> bool:
@@ -1933,6 +2341,12 @@ def witness_fails(w, rec=None) -> bool:
             hist = load_history(w["history"])
             real = run_history_real(hist, HistorySink(rec))
             return any(region == w["region"] for _, region, _, _ in history_oracle(hist, real, rec.url))
+        if kind == "exchanges":
+            hist = load_exchanges(w["history"])
+            baseline = exchange_baseline(rec)
+            with ExchangeWorld(rec) as world:
+                real = run_exchanges_real(hist, world)
+            return any(region == w["region"] for _, region, _, _ in exchange_oracle(hist, real, baseline))
         if kind == "label_falsy":
             from schemathesis.specs.openapi.serialization import label_primitive
 
